@@ -3,7 +3,7 @@
 // own tcpPlayerConn (GetNextMessage framing), SessionsImpl + ClientSessions drained
 // by sche.Handler.  One op = one whole connection:
 //
-//	reset-tcp pk=<pk,pk,..> tail=<hex> [lens=<body length of every packet> cut=<byte offsets>] [passive=1]
+//	reset-tcp pk=<pk,pk,..> tail=<hex> [lens=<body length of every packet> cut=<byte offsets>] [passive=1] [lag=1]
 //
 // the client writes the packets, then the raw tail bytes, then half-closes and
 // reads until the server closes.  `cut`: the byte stream does not arrive in one
@@ -52,6 +52,7 @@ type tcpEnv struct {
 	mu   sync.Mutex
 	ev   map[pi.IClientSession][]string
 	ow   map[pi.IClientSession][]string
+	bad  map[pi.IClientSession][]string // ids of the messages the handler got with a route/payload other than the one sent under the id
 	last pi.IClientSession
 	addr string
 	real pi.IClientSessionImpl
@@ -98,6 +99,10 @@ func (e *tcpEnv) Process(fs *cs.FrontSession, m *msgs.ClientMsg) {
 	defer e.mu.Unlock()
 	if s := e.sessOf(fs); s != nil {
 		e.ow[s] = append(e.ow[s], fmt.Sprintf("m%d", m.ClientReqId))
+		// the message as the handler gets it NOW (it may have waited in the owner's queue while the reader went on)
+		if !sentMatches(m) {
+			e.bad[s] = append(e.bad[s], strconv.Itoa(int(m.ClientReqId)))
+		}
 	} else if e.last != nil {
 		e.ow[e.last] = append(e.ow[e.last], fmt.Sprintf("n%d", m.ClientReqId))
 	}
@@ -122,11 +127,20 @@ func (e *tcpEnv) OnSessionRemove(fs *cs.FrontSession) {
 	e.mu.Unlock()
 }
 
+// sentMatches: route and payload are those the client sent under this id (`d<n>` / `b<n>` packets of encPkt)
+func sentMatches(m *msgs.ClientMsg) bool {
+	if len(m.Data) == len(bigBody) {
+		return m.Route == "chat.room.say" && string(m.Data) == string(bigBody)
+	}
+	route, payload := sentAs(m.ClientReqId)
+	return m.Route == route && string(m.Data) == string(payload)
+}
+
 func newTCPEnv() *tcpEnv { return newAccEnv(acceptor.NewTCPAcceptor("127.0.0.1:0")) }
 
 // newAccEnv: the real SessionsImpl + ClientSessions drained by sche.Handler behind the given real acceptor
 func newAccEnv(a acceptor.Acceptor) *tcpEnv {
-	e := &tcpEnv{ev: map[pi.IClientSession][]string{}, ow: map[pi.IClientSession][]string{}}
+	e := &tcpEnv{ev: map[pi.IClientSession][]string{}, ow: map[pi.IClientSession][]string{}, bad: map[pi.IClientSession][]string{}}
 	sc := sche.NewSche()
 	css := impls.NewClientSessions("gate-tcp")
 	e.hc = impls.NewHandler(nil)
@@ -195,6 +209,42 @@ func (e *tcpEnv) exec(op string) string {
 		}
 	}
 	send := func(conn net.Conn) { e.sendCut(conn, data, cuts) }
+	if v, _ := hx.KV(ws, "lag"); v == "1" {
+		// a busy owner: a task of its scheduler does not return until the reader has posted every data message of the
+		// script or has ended the session (or 3 s have passed): the client's packets all arrive while the earlier messages
+		// are still waiting in the owner's queue
+		all := 0
+		if v, _ := hx.KV(ws, "pk"); v != "" {
+			for _, w := range strings.Split(v, ",") {
+				if strings.HasPrefix(w, "d") || strings.HasPrefix(w, "b") {
+					all++
+				}
+			}
+		}
+		e.mu.Lock()
+		e.last = nil
+		e.mu.Unlock()
+		release := make(chan struct{})
+		e.sc.Post(func() { <-release })
+		go func() {
+			defer close(release)
+			for i := 0; i < 1500; i++ {
+				_, ev, _ := e.logs()
+				nm := 0
+				for _, t := range ev {
+					if strings.HasPrefix(t, "M") {
+						nm++
+					}
+				}
+				if len(ev) > 0 && (ev[len(ev)-1] == "R" || nm >= all) {
+					break
+				}
+				time.Sleep(2 * time.Millisecond)
+			}
+			// the reader is a step ahead of what it has posted: let it take what is left of the stream
+			time.Sleep(3 * time.Millisecond)
+		}()
+	}
 	if v, _ := hx.KV(ws, "passive"); v == "1" {
 		want := 0
 		if v, _ := hx.KV(ws, "pk"); v != "" {
@@ -207,6 +257,16 @@ func (e *tcpEnv) exec(op string) string {
 		return e.runConnPassive(func() (net.Conn, error) { return net.Dial("tcp", e.addr) }, send, want)
 	}
 	return e.runConn(func() (net.Conn, error) { return net.Dial("tcp", e.addr) }, send)
+}
+
+// badOf: ids of the connection's messages that were not handled with the payload sent under them
+func (e *tcpEnv) badOf() string {
+	e.mu.Lock()
+	defer e.mu.Unlock()
+	if e.last == nil {
+		return ""
+	}
+	return strings.Join(e.bad[e.last], "+")
 }
 
 // logs of the connection being run
@@ -295,7 +355,7 @@ func (e *tcpEnv) runConnPassive(dial func() (net.Conn, error), send func(net.Con
 		}
 		time.Sleep(2 * time.Millisecond)
 	}
-	return fmt.Sprintf("ev=%s,ow=%s,eof=%d,g=%d,rel=%d", ev, ow, eof, g, rel)
+	return fmt.Sprintf("ev=%s,ow=%s,eof=%d,g=%d,pl=%s,rel=%d", ev, ow, eof, g, e.badOf(), rel)
 }
 
 // how long a passive client's connection waits for the owner to have seen its messages (2 ms apart)
@@ -365,7 +425,7 @@ func (e *tcpEnv) runConn(dial func() (net.Conn, error), send func(net.Conn)) str
 	if g < 0 {
 		g = 0
 	}
-	return fmt.Sprintf("ev=%s,ow=%s,eof=%d,g=%d", ev, ow, eof, g)
+	return fmt.Sprintf("ev=%s,ow=%s,eof=%d,g=%d,pl=%s", ev, ow, eof, g, e.badOf())
 }
 
 // pause of the client at a cut of its byte stream
@@ -510,6 +570,9 @@ func genTCP(x *hx.T, i int) string {
 	}
 	if passive {
 		op += " passive=1"
+	}
+	if R.Intn(2) == 0 {
+		op += " lag=1"
 	}
 	return op
 }
@@ -706,6 +769,12 @@ func runTCP(x *hx.T, ops []string) {
 		}
 		if pv, _ := hx.KV(ws, "passive"); pv == "1" {
 			x.Count("tcp:passive-client-ended-by-server")
+		}
+		if lv, _ := hx.KV(ws, "lag"); lv == "1" {
+			x.Count("tcp:owner-busy-while-packets-arrive")
+			if strings.Count(pk, "d")+strings.Count(pk, "b") >= 2 {
+				x.Count("tcp:owner-busy-2+-messages-queued")
+			}
 		}
 		if strings.HasPrefix(pk, "b") || strings.Contains(pk, ",b") {
 			x.Count("tcp:body-larger-than-socket-buffer")
